@@ -975,3 +975,87 @@ def mon_c11(sc, res):
 
 def mon_c11_all(sc, res):
     return mon_c11(sc, res) + mon_c02(sc, res) + mon_c03(sc, res)
+
+
+# --------------------------------------------------------------------------- C14 (deadlines)
+
+def mon_c14(sc, res):
+    """armed value = request's own timeout, else the element's, else the default; invalid timeouts are refused and arm
+    nothing; the timeout answer appears only in a step in which that request's timer expired."""
+    fails = []
+    itr = res["itr"]
+    cfgv = D.C.config_values(sc.variant)
+    default_ns = int(float(cfgv["CONFIG_ROUTED_MESSAGES_TIMEOUT"]) * 1e9)
+    elem_timeout = {}        # path -> ns (None = unknown)
+    dead = set()
+    timer_of = {}            # timer index -> (caller, origin id)
+    for si, st in enumerate(sc.steps):
+        sends = step_sends(res, si)
+        reqs = [(c, v) for c, v in step_requests(st, itr.replies, si) if c not in dead and v is not None]
+        arms = [t for t in itr.timers[si] if t[0] == "arm"]
+        routed = [(d, v) for d, ok, v in sends if is_obj(v) and cget(v, b"method") is not None and isinstance(cget(v, b"id"), bytes)]
+        cands = []
+        for c, top in reqs:
+            rs, _ = flatten_requests(top)
+            resp = [v for d, ok, v in sends if d == c and is_response(v)]
+            for r in rs:
+                m = cget(r, b"method")
+                params = cget(r, b"params")
+                rid = cget(r, b"id")
+                if m == b"add" and is_obj(params) and isinstance(cget(params, b"path"), bytes):
+                    mine = [v for v in resp if cget(v, b"id") == rid] if is_id(rid) else []
+                    t = cget(params, b"timeout")
+                    if len(mine) == 1 and has_member(mine[0], b"result"):
+                        elem_timeout[cget(params, b"path")] = int(t * 1e9) if isinstance(t, float) and not isinstance(t, bool) else default_ns
+                        if t is not None and (isinstance(t, bool) or not isinstance(t, float) or t < 0.001):
+                            fails.append("step %d: add with invalid timeout %s was accepted" % (si, show(t)))
+                    elif len(mine) != 1:
+                        elem_timeout[cget(params, b"path")] = None
+                elif m == b"remove" and is_obj(params) and isinstance(cget(params, b"path"), bytes):
+                    pass
+                elif m in (b"set", b"call") and is_obj(params) and isinstance(cget(params, b"path"), bytes):
+                    cands.append((c, r))
+        if len(arms) != len(routed) and not any(not ok for d, ok, v in sends):
+            fails.append("step %d: %d timers armed for %d routed requests" % (si, len(arms), len(routed)))
+        for i, (d, v) in enumerate(routed):
+            if i >= len(arms):
+                break
+            path = cget(v, b"method")
+            want = None
+            src = None
+            for j, (c, r) in enumerate(cands):
+                params = cget(r, b"params")
+                if cget(params, b"path") != path:
+                    continue
+                isset = cget(r, b"method") == b"set"
+                pay = ("obj", [(b"value", cget(params, b"value"))]) if isset else (cget(params, b"args") if cget(params, b"args") is not None else ("obj", []))
+                if cget(v, b"params") != pay:
+                    continue
+                t = cget(params, b"timeout")
+                if t is not None:
+                    if isinstance(t, bool) or not isinstance(t, float) or t < 0.001:
+                        fails.append("step %d: %s with invalid timeout %s was routed" % (si, cget(r, b"method").decode(), show(t)))
+                    else:
+                        want, src = int(t * 1e9), "request"
+                else:
+                    want, src = elem_timeout.get(path, None), "element/default"
+                timer_of[arms[i][1]] = (c, cget(r, b"id"))
+                cands.pop(j)
+                break
+            if want is not None and abs(arms[i][2] - want) > 1:
+                fails.append("step %d: request on %s armed %d ns, expected %d ns (%s)" % (si, show(path), arms[i][2], want, src))
+        # timeout answers only when the timer expired in this step
+        for d, ok, v in sends:
+            if is_response(v) and has_member(v, b"error"):
+                data = cget(cget(v, b"error"), b"data")
+                if is_obj(data) and cget(data, b"reason") == b"timeout for routed request":
+                    hit = [t for t in itr.expired[si] if timer_of.get(t, (None, None))[0] == d and timer_of[t][1] == cget(v, b"id")]
+                    if not hit:
+                        fails.append("step %d: c%d got a timeout answer for id %s although no timer of such a request expired in this step" % (si, d, show(cget(v, b"id"))))
+        for c in itr.closed[si]:
+            dead.add(c)
+    return fails[:6]
+
+
+def mon_c14_all(sc, res):
+    return mon_c14(sc, res) + mon_c03(sc, res)
